@@ -71,6 +71,8 @@ def check(tier, seed, only=None, skip_a=False, skip_b=False):
     located = {f["qualname"] for f in cov_a.get("functions_under_contract", [])}
     cov_a["functions_under_contract"] = cov_a.get("functions_under_contract", []) + [f for f in cov["functions_under_contract"] if f["qualname"] not in located]
     cov = cov_a
+    from contracts import callee
+    cov["assumed_callee_contracts"] = callee.assumed("ClockTime.from_seconds")
     findings += f_a
     undecided += u_a
     errors += e_a
